@@ -74,6 +74,9 @@ type Contract struct {
 	NoReads    []*DelegateSpec // Callee = "Type.field": the function never reads that struct field
 	NoGlobals  []string // tags: the function (and what it inlines) references no package-level variable
 	Delegates  *DelegateSpec
+	Stale      []string // results / parameters whose pointee holds stale (history dependent) contents
+	Cleans     []string // parameters whose pointee is completely overwritten
+	NeedsClean []*DelegateSpec // Callee = parameter name: the pointee must not be stale at the call
 	UseLocals  bool     // assume the local (value-level) clauses of callees too
 	Trust      []string // obligation kinds assumed instead of proved in this function (reported)
 	Keeps      []*WriteSpec
@@ -370,6 +373,14 @@ func (sp *Specs) parseLine(cur **Contract, line, file string, ln int) error {
 			return fmt.Errorf("delegates <callee key> <global>")
 		}
 		c.Delegates = &DelegateSpec{Tags: tags, Callee: f[0], Global: f[1]}
+	case "stale":
+		c.Stale = append(c.Stale, strings.Fields(rest)...)
+	case "cleans":
+		c.Cleans = append(c.Cleans, strings.Fields(rest)...)
+	case "needsclean":
+		for _, f := range strings.Fields(rest) {
+			c.NeedsClean = append(c.NeedsClean, &DelegateSpec{Tags: tags, Callee: f})
+		}
 	case "uselocals":
 		c.UseLocals = true
 	case "trust":
